@@ -2,6 +2,7 @@
 from __future__ import annotations
 
 import itertools
+import math
 import operator
 from fractions import Fraction as F
 
@@ -9,6 +10,7 @@ import pymbolic.primitives as p
 
 from ..core import check, short
 from ..gen import expr as G
+from ..gen import scale
 from ..ref import normal, refsem
 
 RULE = ("operator programs = trees over + - * / // % ** << >> & | ^, unary - + ~, call, subscript, "
@@ -220,7 +222,9 @@ def sym(prog, raw_sites=frozenset(), path=()):
         return p.Variable("d")[sub]
     if k == "attr":
         o = p.Variable("o")
-        return o.attr("attr") if prog[1] == "attr" else o.a.attr
+        nm = prog[2] if len(prog) > 2 else "attr"
+        # the two spellings of attribute look-up: o.attr("name") and o.a.name
+        return o.attr(nm) if prog[1] == "attr" else getattr(o.a, nm)
     raise ValueError(k)
 
 
@@ -300,7 +304,7 @@ def num(prog, env, exact=False, fold=None, path=()):
         return TupTable()[tuple(num(c, env, exact, fold, path + (i + 2,))
                                 for i, c in enumerate(prog[2:]))]
     if k == "attr":
-        return env["o"].attr
+        return getattr(env["o"], prog[2] if len(prog) > 2 else "attr")
     raise ValueError(k)
 
 
@@ -653,12 +657,88 @@ def rand_prog(rng, d, need_expr=True):
     if u < 0.98:
         n = rng.choice([0, 1, 1, 2])
         return ("tindex", n, *[rand_prog(rng, d - 1, i == 0) for i in range(n)])
-    return ("attr", rng.choice(["attr", "a"]))
+    return ("attr", rng.choice(["attr", "a"]), rng.choice(G.ATTR_NAMES))
+
+
+@check("C03.smart")
+def c_smart(ctx, case):
+    """The construction helpers that stand for repeated operator application -- the builtin
+    sum() over expressions, linear_combination, flattened_sum, flattened_product -- on LONG
+    operand lists: the tree evaluates to the plain computation on numbers."""
+    kind, n, seed = case
+    rng = ctx.sub_rng("smart", seed)
+    syms = [X, Y, p.Sum((X, 1)), p.Product((2, Y)), p.Power(X, 2), p.Variable("z")]
+    terms = [rng.choice(syms) if rng.random() < 0.75 else rng.choice([0, 1, 2, -3, 1, 0])
+             for _ in range(n)]
+    coeffs = [rng.choice([1, 2, -1, 3, 0, -2, 5]) for _ in range(n)]
+    try:
+        if kind == "linear_combination":
+            tree = p.linear_combination(coeffs, terms)
+        elif kind == "sum()":
+            tree = sum(terms)
+        elif kind == "flattened_sum":
+            tree = p.flattened_sum(terms)
+        elif kind == "flattened_product":
+            tree = p.flattened_product(terms)
+        else:       # nested: sums of sums / products of products handed to the flattener
+            half = n // 2
+            if kind == "flattened_sum:nested":
+                tree = p.flattened_sum([p.Sum(tuple(terms[:half])), *terms[half:],
+                                        p.Sum((p.Sum(tuple(terms[:3])), 1))])
+            else:
+                tree = p.flattened_product([p.Product(tuple(terms[:half])), *terms[half:],
+                                            p.Product((p.Product(tuple(terms[:3])), 1))])
+    except RecursionError:
+        raise
+    except Exception as ex:  # noqa: BLE001
+        ctx.fail("C03.smart", case, f"{kind}:raised:{type(ex).__name__}",
+                 f"{kind} over {n} operands raised {type(ex).__name__}: {ex}")
+        return
+    for xv, yv, zv in ((2, 3, -1), (-1, 2, 5), (F(1, 2), -2, 3), (3, F(-3, 2), 2)):
+        env = {"x": xv, "y": yv, "z": zv}
+        vals = [refsem.ev(t, env) for t in terms]
+        if kind == "linear_combination":
+            want = sum(c * v for c, v in zip(coeffs, vals))
+        elif kind in ("sum()", "flattened_sum"):
+            want = sum(vals)
+        elif kind == "flattened_product":
+            want = math.prod(vals)
+        elif kind == "flattened_sum:nested":
+            want = sum(vals[:n // 2]) + sum(vals[n // 2:]) + sum(vals[:3]) + 1
+        else:
+            want = math.prod(vals[:n // 2]) * math.prod(vals[n // 2:]) * math.prod(vals[:3])
+        ctx.case(None)
+        ctx.count("smart_constructor_values")
+        got = refsem.outcome(lambda: refsem.ev(tree, env))
+        if got[0] != "v" or not refsem.values_equal(got[1], want):
+            ctx.fail("C03.smart", case, f"{kind}:value",
+                     f"{kind} over {n} operands (coefficients {coeffs[:6]}..., terms "
+                     f"{[str(t) for t in terms[:6]]}...) at x={xv} y={yv} z={zv}: the tree "
+                     f"evaluates to {short(got)}, the plain computation gives {want!r}")
+            return
 
 
 def workload(ctx):
     rng = ctx.rng
     nenv = ctx.pick(40, 81)
+    # scale: construction helpers and operator chains over 1 .. 130 operands
+    for n in [1, 2, 3, 5, 8, *scale.WIDTHS]:
+        for kind in ("linear_combination", "sum()", "flattened_sum", "flattened_product",
+                     "flattened_sum:nested", "flattened_product:nested"):
+            if ctx.mine("smart"):
+                ctx.case(("smart", kind, n), True, n=0)
+                ctx.run("C03.smart", (kind, n, rng.randrange(10**6)))
+        for op in ("+", "-", "*", "mixed"):
+            if not ctx.mine("chain"):
+                continue
+            prog = ("leaf", rng.choice(["x", "y"]))
+            for i in range(n):
+                o = rng.choice(["+", "-", "*"]) if op == "mixed" else op
+                operand = ("leaf", rng.choice(["x", "y", "2", "-3", "1", "0", "1.5", "sum"]))
+                prog = ("bin", o, prog, operand) if rng.random() < 0.8 else ("bin", o, operand, prog)
+            ctx.case(("prog", prog), True, n=0)
+            ctx.count("long_operator_chains")
+            ctx.run("C03.program", (prog, 6))
     # exhaustive (op, left kind, right kind)
     kinds = list(KINDS)
     n = 0
@@ -686,6 +766,15 @@ def workload(ctx):
                 ctx.node("op:" + uop)
                 ctx.run("C03.program", (prog, nenv))
     ctx.set_exhaustive("(unary operator, kind)")
+    for route in ("attr", "a"):
+        for nm in G.ATTR_NAMES:
+            for prog in (("attr", route, nm), ("bin", "+", ("attr", route, nm), ("leaf", "x")),
+                         ("bin", "*", ("leaf", "2"), ("attr", route, nm))):
+                ctx.case(("prog", prog), True, n=0)
+                ctx.count("attribute_names")
+                ctx.run("C03.program", (prog, 4))
+    ctx.set_exhaustive("(look-up spelling, attribute name) over names with leading / trailing / "
+                       "inner underscores, digits, capitals, keyword-like names")
     # one level deeper, exhaustively: a unary operator or a binary minus / plus / times applied
     # to the RESULT of every (binary operator, kind, kind) -- what a node does when it is itself
     # negated or subtracted (-(7 // x), y - 7 % x, 2 * (x / 3))
@@ -741,6 +830,8 @@ def workload(ctx):
             ctx.sample("random-program", show(prog))
         ctx.run("C03.program", (prog, ctx.pick(12, 30)))
     ctx.floor("exhaustive_triples", 12 * 200)
+    ctx.floor("smart_constructor_values", 500)
+    ctx.floor("long_operator_chains", 100)
     ctx.floor("exhaustive_outer_of_triples", 3000)
     ctx.floor("compared", 50000)
     ctx.floor("ordering_compares", 1000)
